@@ -25,8 +25,13 @@ TRx == /\ Ev("rx")
        /\ Monitor(Pk, e.nacc > 0, e.nident = e.nacc, e.extra, e.reg, (IsLong(e.sp) \/ Kp >= 0) /\ CodeAccepts(Pk, KpM), e.nconn)
        /\ IF e.n = 1 /\ Kp >= 0 THEN Shadow(Pk, Kp) ELSE UNCHANGED <<cur, slot>>
 
+\* the code under test panicked (during assembly, key handling, journal positioning or in the receive path); the harness
+\* caught it, the run goes on (rx) or ends (every other phase).  A genuine packet that cannot even be assembled is not
+\* recovered, and a receive path that panics on a datagram does not "discard" it: reported through SoftNoPanic.
+TPanic == Ev("panic") /\ res' = [res EXCEPT !.op = "panic"] /\ UNCHANGED <<sgen, sconf, cur, slot, auth, largest, rcvd, floor>>
+
 TraceInit == l = 1 /\ Init
-TraceNext == TReset \/ TPosition \/ TSenderUpdate \/ TPhaseOut \/ TRx
+TraceNext == TReset \/ TPosition \/ TSenderUpdate \/ TPhaseOut \/ TRx \/ TPanic
 
 Soft(name, ok) == ok \/ PrintT(<<"SOFT_VIOLATION", name, l>>)
 SoftNoForgedDelivered == Soft("ForgedDelivered", NoForgedDelivered)
@@ -36,6 +41,7 @@ SoftGenuineAccepted == Soft("GenuineRejected", res.model => GenuineAccepted)
 SoftStaleReadKey == Soft("GenuineRejected_StaleReadKey", ~res.model => GenuineAccepted)
 SoftBitIdentical == Soft("NotBitIdentical", BitIdentical)
 SoftNothingElse == Soft("ExtraPacketDelivered", NothingElseDelivered)
+SoftNoPanic == Soft("Panic", res.op # "panic")
 SoftDiscardedSilently == Soft("ConnErrorOnUnauthenticated", DiscardedSilently)
 \* diagnostic only (not a property of C06): the implementation's cur_phase follows the code-shaped machine
 DiagShadow == Soft("DiagShadow", (l > 1 /\ Rec[l - 1].ev = "rx" /\ Rec[l - 1].n = 1) => Rec[l - 1].cur_phase = Phase(cur))
